@@ -126,7 +126,7 @@ impl<'a> R<'a> {
 }
 
 fn stats_to_vec(s: &RunStats) -> Vec<u64> {
-    vec![s.read_dir_calls, s.read_dir_nonsorted, s.containers, s.containers_nonzero_keys, s.tweaks_applied, s.iterations, s.whole_file_reads, s.opens, s.short_reads, s.eintr, s.bytes_read, s.fs_escapes, s.prints, s.thread_spawns, s.thread_spawns_deferred, s.sched_steps, s.sched_choice_points, s.context_switches, s.sched_deviations, s.max_tasks, s.timeouts_offered, s.timeouts_fired, s.timeouts_natural, s.cores_asked, s.short_writes, s.write_eintr, s.stderr_prints, s.prints_after_exit, s.clock_reads, s.shuttle_runs, s.programs_spawned, s.programs_missing, s.fd_limit_decisions, s.emfile, s.max_open_fds, s.parallel_stages, s.read_faults_injected, s.write_faults_injected, s.stat_faults_injected, s.spawn_faults_injected]
+    vec![s.read_dir_calls, s.read_dir_nonsorted, s.containers, s.containers_nonzero_keys, s.tweaks_applied, s.iterations, s.whole_file_reads, s.opens, s.short_reads, s.eintr, s.bytes_read, s.fs_escapes, s.prints, s.thread_spawns, s.thread_spawns_deferred, s.sched_steps, s.sched_choice_points, s.context_switches, s.sched_deviations, s.max_tasks, s.timeouts_offered, s.timeouts_fired, s.timeouts_natural, s.cores_asked, s.short_writes, s.write_eintr, s.stderr_prints, s.prints_after_exit, s.clock_reads, s.shuttle_runs, s.programs_spawned, s.programs_missing, s.fd_limit_decisions, s.emfile, s.max_open_fds, s.parallel_stages, s.read_faults_injected, s.write_faults_injected, s.stat_faults_injected, s.spawn_faults_injected, s.thread_panics_survived]
 }
 fn stats_from_vec(v: &[u64]) -> RunStats {
     RunStats {
@@ -170,9 +170,10 @@ fn stats_from_vec(v: &[u64]) -> RunStats {
         write_faults_injected: v[37],
         stat_faults_injected: v[38],
         spawn_faults_injected: v[39],
+        thread_panics_survived: v[40],
     }
 }
-const N_STATS: usize = 40;
+const N_STATS: usize = 41;
 
 fn put_decision(w: &mut W, d: &Decision) {
     match d {
@@ -246,6 +247,11 @@ fn put_decision(w: &mut W, d: &Decision) {
             w.u64(11);
             w.u64(*at);
         }
+        Decision::EnvJobs { name, n } => {
+            w.u64(12);
+            w.str(name);
+            w.u64(*n as u64);
+        }
     }
 }
 
@@ -294,6 +300,10 @@ fn get_decision(r: &mut R) -> Result<Decision, String> {
         9 => Decision::WriteFault { at: r.u64()? },
         10 => Decision::StatFault { at: r.u64()? },
         11 => Decision::SpawnFault { at: r.u64()? },
+        12 => Decision::EnvJobs {
+            name: r.str()?,
+            n: r.u64()? as u32,
+        },
         t => return Err(format!("unknown decision tag {}", t)),
     })
 }
